@@ -185,6 +185,10 @@ def load_known():
 
 def _sub(pattern, value):
     """pattern (dict/list/scalar) matches value if every key of pattern is in value with a matching value."""
+    if isinstance(pattern, dict) and "$in" in pattern:
+        return value in pattern["$in"]
+    if isinstance(pattern, dict) and "$subset" in pattern:
+        return isinstance(value, list) and all(v in pattern["$subset"] for v in value)
     if isinstance(pattern, dict):
         return isinstance(value, dict) and all(k in value and _sub(v, value[k]) for k, v in pattern.items())
     if isinstance(pattern, list):
@@ -201,7 +205,7 @@ def classify(prop, rejects):
         hit = None
         for k in known:
             m = k.get("match", {})
-            if m.get("reason") is not None and m["reason"] != r[2]:
+            if m.get("reason") is not None and not _sub(m["reason"], r[2]):
                 continue
             if "detail" in m and not _sub(m["detail"], r[3] if len(r) > 3 else None):
                 continue
